@@ -160,9 +160,22 @@ class MarginLoans(base.LendingStrategy):
     def _check_margin_level(
             self, updated_balances: ValueMapDict, updated_holds: ValueMapDict, updated_borrowed: ValueMapDict
     ):
+        # The margin level only depends on balances and borrowed amounts, so updates that only change holds (like
+        # releasing the funds reserved by an order) are never rejected.
+        assert self._exchange_ctx, "Not yet connected with the exchange"
+        acc_balances = self._exchange_ctx.account_balances
+        if not _values_changed(acc_balances.balances, updated_balances) \
+                and not _values_changed(acc_balances.borrowed, updated_borrowed):
+            return
+
         margin_level = self._calculate_margin_level(updated_balances, updated_holds, updated_borrowed)
         if margin_level > Decimal(0) and margin_level < Decimal(100):
             raise errors.NotEnoughBalance(f"Margin level too low {margin_level}")
+
+
+def _values_changed(current: ValueMapDict, updated: ValueMapDict) -> bool:
+    symbols = set(current.keys()) | set(updated.keys())
+    return any(current.get(symbol, Decimal(0)) != updated.get(symbol, Decimal(0)) for symbol in symbols)
 
 
 class CheckMarginLevel(account_balances.UpdateRule):
